@@ -145,5 +145,5 @@ contract(F, 'OscInterface._handle_request', props=('C18',), params={'self': 'sel
          loops={0: Loop(inv=rq_pass, over=rq_over, early_exit=True)},
          fields={'OscInterface': {}, 'Main': MAIN_FIELDS, 'TimeThread': TT_FIELDS}, class_modules={'OscInterface': F},
          hooks={'getattr': rq_getattr, 'construct': rq_construct, 'compare': rq_compare, 'ext': rq_ext},
-         opts={'star_in_display_to_ghost': True}, modifies=[], native=False,
+         opts={'star_in_display_to_ghost': True, 'exceptions_stay_inside': True}, modifies=[], native=False,
          note='no `raises`: any path on which an exception leaves the function fails `no-unexpected-exception`')
